@@ -244,6 +244,11 @@ def run(tier, seed):
             vecs, complete = P.seed_vectors(rng, k, exh, nsample) if k else ([None], True)
             for bv in vecs:
                 one(ctx, A, p, klass, eps, suc, box, bv)
+            if box and rng.random() < 0.35 and "tiny" not in klass:
+                # a sweep step right after: nearly, not exactly, the same request (rescaled by 1e-6 .. 1e-3: still in the box)
+                fac = 1.0 - float(rng.choice([1e-3, 2e-4, 3e-5, 1e-6]))
+                ctx.count("session:sweep-step-after-request")
+                one(ctx, A, [float(x) * fac for x in p], klass, eps, suc, box, vecs[int(rng.integers(0, len(vecs)))])
     # threshold-adjacent inputs inside the box: the capitalised, rescaled polynomial suc*(p + eps/4 at both ends) has an
     # inner conjugate root pair of 1 - F F~ with imaginary part 1e-8..1e-6 (constructed by bisection, see pipeline.near_collision)
     for n in ([2, 3, 5, 7, 9, 12] if tier == "quick" else list(range(2, 13)) * 3):
